@@ -13,7 +13,8 @@ package zitiql
 // Errors are listened to (C10): the caller's listener is registered on the lexer and on the parser
 // before parsing starts, so text that is not a sentence of the grammar is reported, not repaired.
 //@ func parse
-//@   props C10 C18
+//@   props C10 C18 C11
+//@   callpre[the-lexer-reads-the-query-text-exactly-as-given] NewInputStream@1: arg0 == str
 //@   nosafety
 //@   requires el != nil
 //@   modifies *
